@@ -28,7 +28,7 @@ SUMMARY = {
 "C03-s2": "decoder resolves offset 0 against a running max end instead of the previous entry; needs a back-reference followed by a contiguous entry",
 "C04-s2": "encoder's next_byte = offset + length·run_length; needs a run followed by an entry at that coincidental offset, then save+reopen",
 "C05-s2": "tile-id deltas read as u32 varints; needs a delta ≥ 2^32",
-"C06-s2": "",
+"C06-s2": "the leaf-pointer offsets are accumulated in a variable declared outside the retry loop (not reset when the leaf size doubles)",
 "C07-s2": "find_z compares acc < id instead of <=: zxy(first id of zoom 32) returns 31/0/0; needs exactly that id",
 "C08-s2": "walker computes entry.tile_id + run_length with plain + for a clamped loop; needs tile_id + run_length ≥ 2^64",
 "C09-s2": "async header reader uses read() into a zeroed Vec; needs a short first read or truncated input, async only",
@@ -37,9 +37,9 @@ SUMMARY = {
 "C12-s2": "read_meta_data_async caps the decompressed metadata at 64 KiB with take(); needs metadata > 64 KiB, async only",
 "C13-s2": "walker skips the absolute seek when the next directory starts where the previous should have ended; needs fragmented reads + compression + ≥ 2 leaves",
 "C14-s2": "decompress_all uses a chunked read loop that stops on a short read; needs a compressed stream larger than the decoder's buffer",
-"C15-s2": "",
+"C15-s2": "the final seek's result is converted with .map_or(Ok(()), |_| Ok(())), swallowing a seek error",
 "C16-s2": "write_lat_lon truncates instead of rounding (reverts the F2 repair); needs a non-integer coordinate and read→write→read",
-"C17-s2": "",
+"C17-s2": "the async header writer emits the header in two writes (first 100 bytes, then the rest)",
 "C18-s2": "final seek is SeekFrom::End(0); needs data beyond the archive in the stream",
 "C19-s2": "entry length read as u64, zero-checked, then narrowed to u32; needs a length varint that is a multiple of 2^32",
 "C20-s2": "async decoder built on binding.get_mut() (the unlimited inner reader); needs async + compressing codec + byte tracking",
